@@ -669,6 +669,16 @@ def c17(sc, req, path):
                 yield refute('bid_fee_reported', [m] + cs + wdefs + [z3.Not(z3.And(wit, bfn == b['rem_f'] - r1))])
             else:
                 yield refute('bid_fee_reported', [m, bfn != 0])
+            # ... and were paid: each fee account (when it is not also a trading party of this match) received exactly the reported fee(s)
+            if afn is not None and bfn is not None:
+                trs_ = transfers(path)
+                parties = [a['owner'], b['owner']] + ([a['approver']] if a['cls'] == 'Ready' else [])
+                for acct, own, oacct, other in ((v['askfee_acct'], afn, v['bidfee_acct'], bfn), (v['bidfee_acct'], bfn, v['askfee_acct'], afn)):
+                    if acct is None:
+                        continue
+                    expect = own + (z3.If(oacct == acct, other, 0) if oacct is not None else 0)
+                    apart = [acct != x for x in parties]
+                    yield refute('reported_fees_were_paid_to_the_fee_accounts', [m] + apart + [paid(trs_, acct, qd) != expect], side='ask' if own is afn else 'bid')
     if kind in ('CreateAsk', 'CreateBid', 'ApproveAsk'):
         ns = 'bid' if kind == 'CreateBid' else 'ask'
         pr, sz = attr_value(path, 'price'), attr_value(path, 'size')
@@ -1223,6 +1233,11 @@ def c16(sc, req, path):
             else:
                 alts = [z3.And(matched(e, rid), struct_eq(e.val, val)) if e.val.ty == val.ty else z3.BoolVal(False) for e in sc.world.maps[ns]]
                 yield refute('order_query_returns_the_stored_order', [z3.Not(z3.Or(*alts))], q=q)
+                # an order that has been completely filled, cancelled, expired or rejected is not on the book: nothing with zero remaining is reported
+                if val.ty == 'AskOrderV1':
+                    yield refute('order_query_never_reports_a_closed_order', [ask_view(ti, val)['size'] <= 0], q=q)
+                elif val.ty == 'BidOrderV3':
+                    yield refute('order_query_never_reports_a_closed_order', [bid_view(ti, val)['rem_b'] <= 0], q=q)
         else:
             # an id on the (named) book that parses as a UUID is answered
             yield refute('order_query_answers_for_orders_on_the_book', [on_book, f_uuid_ok(rid)], q=q, outcome=path.kind)
@@ -1297,6 +1312,33 @@ def c01_history(sc, trail):
     final = trail[-1][2].world
     yield refute('holdings_equal_owed_after_history', [net != owed(ti, final, D)], steps=len(trail))
     yield refute('holdings_never_negative', [net < 0], steps=len(trail))
+
+
+def c05_history(sc, trail):
+    """every accepted privileged request of an accepted history was sent by a holder of the role, read from the configuration and book
+    stored just before it (reachable states only: no invariant is assumed, auxiliary state the code keeps is whatever it really wrote)"""
+    ti = sc.ti
+    for i in range(1, len(trail)):
+        req, _, p = trail[i]
+        pre = trail[i - 1][2].world
+        kind, sender = req['kind'], req['sender']
+        cfg = pre.items['contract_info']
+        execs, apprs = ti.get(cfg, 'executors'), ti.get(cfg, 'approvers')
+        if kind == 'CancelAsk':
+            goal = z3.Or(*[z3.And(matched(e, req['id']), sender == ask_view(ti, e.val)['owner']) for e in pre.maps['ask']])
+            yield prove('auth_cancel_ask_owner_only_in_history', goal, step=i)
+        elif kind == 'CancelBid':
+            goal = z3.Or(*[z3.And(matched(e, req['id']), sender == bid_view(ti, e.val)['owner']) for e in pre.maps['bid']])
+            yield prove('auth_cancel_bid_owner_only_in_history', goal, step=i)
+        elif kind == 'ApproveAsk':
+            yield prove('auth_approve_approver_only_in_history', in_list(sender, apprs), step=i)
+        elif kind in ('CreateAsk', 'CreateBid'):
+            continue
+        else:
+            yield prove('auth_executor_only_in_history', in_list(sender, execs), step=i, request=kind)
+
+
+HISTORY_OBLIGATIONS = {'C01': c01_history, 'C05': c05_history}
 
 
 def with_inv_establishment(fn):
